@@ -252,6 +252,12 @@ def bind_later(case, i, x, root, k, v):
   r = case['routes'][i] if case.get('routes') else {}
   route = r.get('route') or ('setattr' if case.get('setattr') else 'rebind')
   fields = [n for n, _ in case['sig']['pos'] + case['sig']['kwonly']] + [case['sig']['varargs']]
+  if v is None and r.get('how', 'missing') == 'del':
+    with pg.notify_on_change(bool(r.get('notify', True))):
+      delattr(x, k)
+    return
+  if v is None:
+    v = pg.MISSING_VALUE
   with pg.notify_on_change(bool(r.get('notify', True))):
     if route == 'ancestor' and root is not None:
       kind = case['container']
@@ -411,12 +417,21 @@ def supply(sig, named, var, c, ovr, drop):
     elif not drop: raise Conflict('unexpected keyword %s' % k)
   return named, var
 
+def apply_step(sig, named, var, k, v):
+  """One step after construction: bind k to v, or (v is None) un-bind it: the argument is no longer supplied."""
+  if v is None:
+    named = collections.OrderedDict(named)
+    if sig['varargs'] and k == sig['varargs']: return named, None
+    named.pop(k, None)
+    return named, var
+  return supply(sig, named, var, ([], [(k, v)]), True, False)
+
 def effective(sig, ctor, lates, call, override, ie):
   """('err', why) or ('call', pos, kw, named, var) — the direct call with the same effective arguments."""
   try:
     named, var = supply(sig, {}, None, ctor, False, False)
-    for kv in lates:
-      named, var = supply(sig, named, var, ([], [kv]), True, False)
+    for k, v in lates:
+      named, var = apply_step(sig, named, var, k, v)
     bound_named, bound_var = dict(named), var
     if call is not None:
       named, var = supply(sig, named, var, call, override, ie)
@@ -455,11 +470,12 @@ def features(case, with_call=True):
   try:
     named, var = supply(sig, {}, None, case['ctor'], False, False)
     for k, v in case['lates']:
-      if k != va and k not in named and dflt.get(k) is not None and dflt.get(k) == v:
+      if v is not None and k != va and k not in named and dflt.get(k) is not None and dflt.get(k) == v:
         f.append('late-binding-of-unbound-default'); break
-      named, var = supply(sig, named, var, ([], [(k, v)]), True, False)
+      named, var = apply_step(sig, named, var, k, v)
   except Conflict:
     pass
+  if any(v is None for _, v in case['lates']): f.append('un-binding')
   if case.get('reenter'): f.append('re-entrant-call')
   if case.get('routes') and any(not r.get('notify', True) for r in case['routes']): f.append('notification-off')
   if case.get('routes') and any(r.get('route') == 'ancestor' for r in case['routes']) and case.get('container'): f.append('bound-through-%s' % case['container'])
@@ -523,11 +539,56 @@ def gen_lates(rng, sig, n, name_posonly=False):
       out.append((k, d if d is not None and rng.random() < .25 else rng.choice(VALS)))
   return out
 
+def add_unbinds(rng, c, how=('del', 'missing'), required=True):
+  """Interleaves un-binding steps (del f.k / rebind(k=MISSING_VALUE)) with the binding steps, mostly of names bound so far."""
+  sig = c['sig']
+  n = rng.choice([0, 0, 0, 1, 1, 2])
+  if not n: return
+  dflt = dict(sig['pos'] + sig['kwonly'])
+  everything = list(dflt) + ([sig['varargs']] if sig['varargs'] else []) + (['zz', 'yy'] if sig['varkw'] else [])
+  if not everything: return
+  for _ in range(n):
+    at = rng.randint(0, len(c['lates']))
+    try:
+      named, var = supply(sig, {}, None, c['ctor'], False, False)
+      for k, v in c['lates'][:at]: named, var = apply_step(sig, named, var, k, v)
+      bound = list(named) + ([sig['varargs']] if var is not None and sig['varargs'] else [])
+    except Conflict:
+      bound = []
+    k = rng.choice(bound) if bound and rng.random() < .7 else rng.choice(everything)
+    if not required and dflt.get(k, 0) is None: continue
+    c['lates'].insert(at, (k, None))
+    c.setdefault('unbind_how', {})
+
+def finish_routes(rng, c, how=('del', 'missing')):
+  """How each un-binding step is done; del f.k of a **kwargs key that is not there is a KeyError (like del of a missing attribute), so such a key is un-bound through MISSING_VALUE."""
+  sig = c['sig']
+  try: named, var = supply(sig, {}, None, c['ctor'], False, False)
+  except Conflict: named, var = {}, None
+  for i, (k, v) in enumerate(c['lates']):
+    if v is None:
+      h = rng.choice(how)
+      fields = [n for n, _ in sig['pos'] + sig['kwonly']] + [sig['varargs']]
+      if h == 'del' and k not in fields and k not in named: h = 'missing'
+      c['routes'][i]['how'] = h
+      if h == 'del': c['routes'][i]['route'] = 'rebind'
+    try: named, var = apply_step(sig, named, var, k, v)
+    except Conflict: pass
+
 def names_supplied(sig, c):
   posn = [n for n, _ in sig['pos']]
   out = set(posn[:len(c[0])]) | set(k for k, _ in c[1])
   if len(c[0]) > len(posn) and sig['varargs']: out.add(sig['varargs'])
   return out
+
+def bound_names(sig, c):
+  """The names that hold a supplied argument after construction and the later steps."""
+  try:
+    named, var = supply(sig, {}, None, c['ctor'], False, False)
+    for k, v in c['lates']: named, var = apply_step(sig, named, var, k, v)
+  except Conflict:
+    return names_supplied(sig, c['ctor']) | set(k for k, v in c['lates'] if v is not None)
+  return set(named) | ({sig['varargs']} if var is not None and sig['varargs'] else set())
 
 def gen_functor_case(rng, sig, kind=None):
   c = dict(kind=kind or rng.choice(['functor', 'functor', 'symbolize']), sig=sig, annotated=False)
@@ -535,14 +596,15 @@ def gen_functor_case(rng, sig, kind=None):
   c['ctor'] = gen_supply(rng, sig, True, tidy=rng.random() < .7, name_posonly=byname)
   c['ov'] = rng.random() < .2; c['ie'] = rng.random() < .2
   c['lates'] = gen_lates(rng, sig, rng.choice([0, 0, 0, 1, 1, 2]), name_posonly=byname)
+  add_unbinds(rng, c)
   c['setattr'] = rng.random() < .3
   c['ovo'] = rng.choice([None, None, None, True, False]); c['ieo'] = rng.choice([None, None, None, True, False])
   ov = c['ov'] if c['ovo'] is None else c['ovo']
-  taken = () if ov or rng.random() < .15 else names_supplied(sig, c['ctor']) | set(k for k, _ in c['lates'])
+  taken = () if ov or rng.random() < .15 else bound_names(sig, c)
   c['call'] = gen_supply(rng, sig, False, tidy=rng.random() < .7, taken=taken, name_posonly=byname)
   if rng.random() < .5:
     # complete the call: give every still missing required parameter a value
-    have = names_supplied(sig, c['ctor']) | set(k for k, _ in c['lates']) | names_supplied(sig, c['call'])
+    have = bound_names(sig, c) | names_supplied(sig, c['call'])
     po = 0 if byname else sig.get('posonly', 0)
     posn = [n for n, _ in sig['pos']]
     for i, (n, d) in enumerate(sig['pos'] + sig['kwonly']):
@@ -551,6 +613,7 @@ def gen_functor_case(rng, sig, kind=None):
   c['post'] = rng.choice([0, 0, 0, 1, 2])
   c['deep'] = rng.random() < .5; c['json_str'] = rng.random() < .5
   add_routes(rng, c)
+  finish_routes(rng, c)
   if c['post'] == 1 and rng.random() < .5:
     names = [n for n, _ in sig['pos'] + sig['kwonly']] + (['zz'] if sig['varkw'] else [])
     if names: c['decoy'] = (rng.choice(names), 77)
@@ -570,7 +633,7 @@ def gen_subclassed_case(rng):
   n = rng.randint(0, 3)
   sig = dict(pos=[(POS_NAMES[i], 10 + i if rng.random() < .5 else None) for i in range(n)], varargs=None, kwonly=[], varkw=None)
   c = gen_functor_case(rng, sig, kind='subclassed')
-  fix = lambda kv: [(k, v if isinstance(v, int) else 3) for k, v in kv]
+  fix = lambda kv: [(k, v if isinstance(v, int) or v is None else 3) for k, v in kv]
   c['ctor'] = (c['ctor'][0], fix(c['ctor'][1])); c['call'] = (c['call'][0], fix(c['call'][1])); c['lates'] = fix(c['lates'])
   c['reenter'] = rng.random() < .5
   return c
@@ -581,8 +644,10 @@ def gen_class_case(rng, sig):
   c['ctor'] = gen_supply(rng, sig, False, tidy=rng.random() < .7, name_posonly=byname)
   c['lates'] = gen_lates(rng, sig, rng.choice([0, 0, 1, 1, 2]), name_posonly=byname)
   c['partial'] = rng.random() < .5
+  add_unbinds(rng, c, required=c['partial'])     # a complete object refuses to lose a required argument (ValueError, documented)
   c['post'] = rng.choice([0, 0, 0, 1, 2]); c['deep'] = rng.random() < .5
   add_routes(rng, c, notify_off=False)       # without notification the user __init__ is not re-run (documented), nothing to compare
+  finish_routes(rng, c, how=('missing',))      # del x.k is a plain attribute deletion on a symbolized class
   return c
 
 def gen_subclass_case(rng, pair, sigb, sigd, order, sub_init='own-super'):
@@ -632,12 +697,21 @@ def random_sig(rng, maxpos=3, maxkw=2, posonly=False):
     sig['posonly'] = rng.randint(1, npos)      # positional-only parameters are only ever supplied by position (see design/C18.md)
   return sig
 
+def enc_steps(case):
+  out = []
+  for i, (k, v) in enumerate(case['lates']):
+    if v is None:
+      out.append([NAMES[k], [], int(late_notify(case, i)), int(bool(case.get('routes')) and case['routes'][i].get('how') == 'del')])
+    else:
+      out.append([NAMES[k], enc_val(v), int(late_notify(case, i))])
+  return out
+
 def case_tree(case, q):
   s = enc_sig(case['sig'])
   if case['kind'] in ('class', 'subclass'):
-    return [1, s, enc_call(case['ctor']), int(case['partial']), [[NAMES[k], enc_val(v)] for k, v in case['lates']]]
+    return [1, s, enc_call(case['ctor']), int(case['partial']), enc_steps(case)]
   return [0, [int(q['noop_rebind'])], s, enc_call(case['ctor']), [int(case['ov']), int(case['ie'])],
-          [[NAMES[k], enc_val(v), int(late_notify(case, i))] for i, (k, v) in enumerate(case['lates'])], enc_call(case['call']),
+          enc_steps(case), enc_call(case['call']),
           [trlib.opt(case['ovo'], int), trlib.opt(case['ieo'], int)], case['post']]
 
 def eff_flags(case):
@@ -770,12 +844,14 @@ def describe(case, with_call=True):
     s += ' partial=%s' % case['partial']
   for i, (k, v) in enumerate(case['lates']):
     r = case['routes'][i] if case.get('routes') else {}
-    if r.get('route') == 'ancestor' and case.get('container'):
-      s += ' <%s holding it>.rebind({...%s: %r%s})' % (case['container'], k, v, ', other path' if r.get('batch') else '')
+    if v is None and r.get('how') == 'del':
+      s += ' del .%s' % k
+    elif r.get('route') == 'ancestor' and case.get('container'):
+      s += ' <%s holding it>.rebind({...%s: %s%s})' % (case['container'], k, 'MISSING_VALUE' if v is None else repr(v), ', other path' if r.get('batch') else '')
     elif r.get('route') == 'setattr' or (not r and case.get('setattr')):
-      s += ' .%s = %r' % (k, v)
+      s += ' .%s = %s' % (k, 'MISSING_VALUE' if v is None else repr(v))
     else:
-      s += ' .rebind(%s=%r)' % (k, v)
+      s += ' .rebind(%s=%s)' % (k, 'MISSING_VALUE' if v is None else repr(v))
     if not r.get('notify', True): s += '[notification off]'
   if case.get('decoy') and case.get('post') == 1: s += ' (original.rebind(%s=%r) after the clone)' % tuple(case['decoy'])
   if case.get('reenter'): s += ' (_call re-enters the functor)'
@@ -921,7 +997,7 @@ def run(ctx):
   for _ in range(ctx.scale(600, 12000)):
     fcases.append(gen_subclassed_case(rng))
   for c in fcases:
-    if c['kind'] != 'subclassed' and rng.random() < .1: c['annotated'] = all(isinstance(v, int) for v in c['ctor'][0] + [v for _, v in c['ctor'][1] + c['lates'] + c['call'][1]] + c['call'][0]
+    if c['kind'] != 'subclassed' and rng.random() < .1: c['annotated'] = all(isinstance(v, int) for v in c['ctor'][0] + [v for _, v in c['ctor'][1] + [kv for kv in c['lates'] if kv[1] is not None] + c['call'][1]] + c['call'][0]
                                                  if True) and not any(k == c['sig']['varargs'] for k, _ in c['ctor'][1] + c['lates'])
   hits_before = len(ctx.hits)
   def hitter(case):
@@ -932,7 +1008,7 @@ def run(ctx):
     add(case_tree(c, q), out, c)
     ov, ie = eff_flags(c)
     eff = effective(c['sig'], c['ctor'], c['lates'], c['call'], ov, ie)
-    add([4, enc_sig(c['sig']), enc_call(c['ctor']), [[NAMES[k], enc_val(v)] for k, v in c['lates']], enc_call(c['call']), int(ov), int(ie)],
+    add([4, enc_sig(c['sig']), enc_call(c['ctor']), enc_steps(c), enc_call(c['call']), int(ov), int(ie)],
         eff_tree(eff), dict(kind='effective', case=c))
     nt = nontrivial(c)
     ctx.count(json.dumps(c, sort_keys=True, default=str), nontrivial=nt,
@@ -946,7 +1022,8 @@ def run(ctx):
     ctx.hist('signature_shape', '%dpos%s%s %dkwonly%s' % (len(c['sig']['pos']), '(%d/)' % c['sig']['posonly'] if c['sig'].get('posonly') else '', '+*' if c['sig']['varargs'] else '', len(c['sig']['kwonly']), '+**' if c['sig']['varkw'] else ''))
     oracle_functor(ctx, c, out, hitter(c))
     # the same case with run-time type checking switched off must behave the same (arguments are untyped)
-    if c['kind'] != 'subclassed' and not c.get('annotated') and not any(k == c['sig']['varargs'] and not isinstance(v, list) for k, v in c['ctor'][1] + c['lates']) and rng.random() < .35:
+    # (without type checking the attribute container is not filled from the schema, so del f.k of an unbound name is a KeyError: no variant for un-binding cases)
+    if c['kind'] != 'subclassed' and not any(v is None for _, v in c['lates']) and not c.get('annotated') and not any(k == c['sig']['varargs'] and v is not None and not isinstance(v, list) for k, v in c['ctor'][1] + c['lates']) and rng.random() < .35:
       n_tc += 1
       h = typecheck_variant_hit(c, out)
       if h: ctx.hit(h[0], h[1], dict(op='case', case=c, typecheck=False))
